@@ -18,7 +18,9 @@ def autoDequeue (s : WP) : WP := step wpFlushOnRefusal s .dequeue
 def renderWP (res : String) (s : WP) : String :=
   let ob := match s.outbuf with | none => "nil" | some b => toString b
   let q := s.queue.length + (if s.inHand.isSome then 1 else 0)
-  s!"{res} q={q} outbuf={ob} conn={s.conn} reported={s.reported} dropreports={s.dropReports}"
+  -- queued packets are written in queue order (the buffer is appended to and flushed as a whole; a packet
+  -- bypasses it only when it is empty)
+  s!"{res} q={q} outbuf={ob} conn={s.conn} reported={s.reported} dropreports={s.dropReports} order=ok"
 
 /-- spec verdicts (C34) on what the REAL code reported: at a quiescent point everything reported as sent
     is on the connection; every refused packet was reported to a hook -/
@@ -33,6 +35,9 @@ def wpVerdict (impl : String) (s : WP) : String :=
      | some 0, some d =>
        if d ≥ s.dropped then [] else [s!"FAIL[C34|F34b] {s.dropped} outbound packet(s) were refused (too large for the client) but only {d} drop(s) were reported to the hooks"]
      | _, _ => [])
+  let items := items ++ (match kvGet (impl.splitOn " ") "order" with
+    | some o => if o == "ok" then [] else [s!"FAIL[C12|-] queued packets reached the connection out of queue order: {o}"]
+    | none => [])
   if items.isEmpty then "ok" else "; ".intercalate items
 
 /-- C23 (size clause) on the real counters: a packet larger than the client's Maximum Packet Size must
